@@ -559,6 +559,16 @@ def scenarios(ctx):
                     "offers": [["d", int(o[0]), int(o[1]), int(o[2]), int(o[3])]],
                     "spol": [",".join(a[:4] + [mem]), "-", "-"], "cpol": [",".join(y[:2] + [mem]), "-", "-"],
                     "peer": rng.choice(peers), "msgs": msg_seq(rng, ctx.tier, w, False), "seg": rng.randrange(1 << 30)})
+    # a decompression limit (max_message_size) above every single message on one or both ends: nothing may change, also
+    # not over a long sequence with context takeover (the limit counts per message, not per connection)
+    for k, (snct, cnct, who) in enumerate(((0, 0, "sc"), (0, 0, "s"), (1, 0, "c"), (0, 1, "sc"))):
+        capmsgs = []
+        for i in range(10):
+            capmsgs.append({"dir": "c2s" if i % 2 == 0 else "s2c", "bin": i % 3 != 0, "gen": [["comp", "rand", "far"][i % 3], 9000 + i, rng.randrange(1 << 30)],
+                            "api": ["whole", "stream", "whole"][i % 3], "frag": [None, 1000, 4096][i % 3], "pieces": 1 + i % 3, "dnc": False})
+        out.append({"id": f"cap-{k}", "offers": [["d", 1, 1, 0, 0]], "spol": [f"{cnct},0,{snct if snct else '~'},~,~", "-", "-"],
+                    "cpol": ["~,~,~", "-", "-"], "peer": "real", "msgs": capmsgs,
+                    "seg": rng.randrange(1 << 30), "mms": {x: 10000 for x in who}})
     # several offers in one request, the server picks by policy
     out.append({"id": "multi-offer", "offers": [["r", 1, 1], ["d", 1, 1, 0, 0], ["z", 1, 0]], "spol": ["0,0,~,~,~", "-", "-"],
                 "cpol": ["~,~,~", "~", "~"], "peer": "real", "msgs": msg_seq(rng, ctx.tier, 15, False), "seg": 5})
